@@ -12,11 +12,13 @@ package main
 // The check rebuilds itself from the current tree with `go build -race`
 // (output under .work/c07/). For every unordered pair of entry points
 // (an entry point with itself included) one fresh driver process runs R
-// repetitions: two inputs of the streams of stream.go that no earlier
-// repetition used (fresh, never seen signatures, so that a lazily filled
-// global is written, not only read; every fourth repetition both sides use
-// the same index, i.e. the same fresh signature at the same time) are decoded
-// by two goroutines released together by closing one channel. A fresh
+// repetitions (at least one per combination of sub-cases of the two entry
+// points, which the repetitions walk through). A repetition is two releases:
+// two goroutines, held at one channel and released together by closing it,
+// each decode one input of the streams of stream.go that no earlier release
+// used - first two different never-seen inputs (fresh signatures, so that a
+// lazily filled global is written, not only read), then the same never-seen
+// index on both sides (the same fresh signature at the same time). A fresh
 // process per pair makes the first repetition the first use of both entry
 // points in that process (one-time lazy initialisation races too) and keeps
 // the detector's per-process de-duplication from hiding a site from later
@@ -41,13 +43,29 @@ import (
 
 func raceReps() int {
 	if report.Tier() == "thorough" {
-		return 1500
+		return 1000
 	}
-	return 300
+	return 200
 }
 
 // index range of the race pass: disjoint from the retention streams' range
-const raceBase = 1 << 20
+const raceBase = 1 << 17
+
+// pairReps: at least one repetition per combination of sub-cases; an entry
+// point of cost class c divides the count by c.
+func pairReps(a, b *streamEntry, reps int) int {
+	if c := len(a.subs) * len(b.subs); c > reps {
+		reps = c
+	}
+	slow := a.slow
+	if b.slow > slow {
+		slow = b.slow
+	}
+	if r := reps / slow; r >= len(a.subs)*len(b.subs) {
+		return r
+	}
+	return len(a.subs) * len(b.subs)
+}
 
 // ------------------------------------------------------------ driver process
 
@@ -69,12 +87,8 @@ func raceDriverMain(args []string) {
 	sa, sb := ss[a], ss[b]
 	rejected := 0
 	firstRej := "-"
-	for r := 0; r < reps; r++ {
-		ia, ib := base+r, base+reps+r
-		if r%4 == 3 {
-			ib = ia
-		}
-		inA, inB := sa.gen(ia), sb.gen(ib)
+	pa, pb := len(sa.subs), len(sb.subs)
+	release := func(inA, inB streamInput, ja, jb int) {
 		var oa, ob outcome
 		start := make(chan struct{})
 		var wg sync.WaitGroup
@@ -87,7 +101,7 @@ func raceDriverMain(args []string) {
 			s *streamEntry
 			i int
 			o outcome
-		}{{sa, ia, oa}, {sb, ib, ob}} {
+		}{{sa, ja, oa}, {sb, jb, ob}} {
 			if !acceptable(x.s.entry, x.o) {
 				if rejected == 0 {
 					firstRej = fmt.Sprintf("%s#%d:%s", x.s.entry, x.i, msgClass(x.o.err, 80))
@@ -95,6 +109,12 @@ func raceDriverMain(args []string) {
 				rejected++
 			}
 		}
+	}
+	for r := 0; r < reps; r++ {
+		subA, subB := r%pa, (r/pa)%pb
+		ja, jb, jc := base+3*r, base+3*r+1, base+3*r+2
+		release(sa.gen(subA, ja), sb.gen(subB, jb), ja, jb)
+		release(sa.gen(subA, jc), sb.gen(subB, jc), jc, jc)
 	}
 	fmt.Printf("OK %d %d %s\n", reps, rejected, firstRej)
 }
@@ -191,6 +211,31 @@ func parseRaceReports(stderr string) (sites []raceSite, harness []string) {
 	return
 }
 
+// fatalMapSite recognises the Go runtime's abort on a racing map ("fatal
+// error: concurrent map writes" and its variants) and returns the first
+// repository frame of the goroutine that hit it.
+func fatalMapSite(es string) (raceSite, bool) {
+	i := strings.Index(es, "fatal error: concurrent map")
+	if i < 0 {
+		return raceSite{}, false
+	}
+	msg := es[i:]
+	if j := strings.IndexByte(msg, '\n'); j >= 0 {
+		msg = msg[:j]
+	}
+	site := "unknown"
+	if k := strings.Index(es[i:], "\ngoroutine "); k >= 0 {
+		if fs := repoFrames(es[i+k+1:], "goroutine "); len(fs) > 0 {
+			site = normSite(fs[0])
+		}
+	}
+	rep := es[i:]
+	if len(rep) > 4000 {
+		rep = rep[:4000]
+	}
+	return raceSite{site: site, kind: msg, report: rep}, true
+}
+
 func runPair(bin string, a, b, reps, base int) *pairRun {
 	t0 := time.Now()
 	pr := &pairRun{}
@@ -218,18 +263,8 @@ func runPair(bin string, a, b, reps, base int) *pairRun {
 	}
 	es := stderr.String()
 	pr.sites, pr.harness = parseRaceReports(es)
-	if i := strings.Index(es, "fatal error: concurrent map"); i >= 0 {
-		msg := es[i:]
-		if j := strings.IndexByte(msg, '\n'); j >= 0 {
-			msg = msg[:j]
-		}
-		site := "unknown"
-		if k := strings.Index(es[i:], "\ngoroutine "); k >= 0 {
-			if fs := repoFrames(es[i+k+1:], "goroutine "); len(fs) > 0 {
-				site = normSite(fs[0])
-			}
-		}
-		pr.sites = append(pr.sites, raceSite{site: site, kind: msg, report: tail(es[i:], 4000)})
+	if fs, ok := fatalMapSite(es); ok {
+		pr.sites = append(pr.sites, fs)
 		return pr
 	}
 	f := strings.Fields(strings.TrimSpace(stdout.String()))
@@ -245,6 +280,23 @@ func runPair(bin string, a, b, reps, base int) *pairRun {
 	return pr
 }
 
+func allSeenAgain(sites []raceSite, reruns []*pairRun) bool {
+	for _, s := range sites {
+		found := false
+		for _, r := range reruns {
+			for _, rs := range r.sites {
+				if rs.site == s.site {
+					found = true
+				}
+			}
+		}
+		if !found {
+			return false
+		}
+	}
+	return true
+}
+
 // racePass builds the driver (already started by the caller: binCh), runs every
 // unordered pair in a fresh process, confirms each (pair, site) by re-running
 // the pair, reports, and returns the evidence block.
@@ -255,12 +307,16 @@ func racePass(chk lockedChk, ss []*streamEntry, bin string, buildS float64, par 
 	var pairs []pair
 	for a := range ss {
 		for b := a; b < len(ss); b++ {
-			slow := ss[a].slow
-			if ss[b].slow > slow {
-				slow = ss[b].slow
-			}
-			pairs = append(pairs, pair{a, b, reps / slow})
+			pairs = append(pairs, pair{a, b, pairReps(ss[a], ss[b], reps)})
 		}
+	}
+	stride := 0 // index range of one pair: 3 indices per repetition
+	combos := 0
+	for _, p := range pairs {
+		if 3*p.reps > stride {
+			stride = 3 * p.reps
+		}
+		combos += len(ss[p.a].subs) * len(ss[p.b].subs)
 	}
 	// the expensive pairs start first
 	order := make([]int, len(pairs))
@@ -268,8 +324,9 @@ func racePass(chk lockedChk, ss []*streamEntry, bin string, buildS float64, par 
 		order[k] = k
 	}
 	sort.SliceStable(order, func(i, j int) bool {
-		ci := ss[pairs[order[i]].a].slow + ss[pairs[order[i]].b].slow
-		cj := ss[pairs[order[j]].a].slow + ss[pairs[order[j]].b].slow
+		pi, pj := pairs[order[i]], pairs[order[j]]
+		ci := (ss[pi.a].slow + ss[pi.b].slow) * pi.reps
+		cj := (ss[pj.a].slow + ss[pj.b].slow) * pj.reps
 		return ci > cj
 	})
 	runs := make([]*pairRun, len(pairs))
@@ -286,12 +343,15 @@ func racePass(chk lockedChk, ss []*streamEntry, bin string, buildS float64, par 
 			defer wg.Done()
 			for k := range jobs {
 				p := pairs[k]
-				base := raceBase + k*2*reps
+				base := raceBase + k*stride
 				runs[k] = runPair(bin, p.a, p.b, p.reps, base)
-				if len(runs[k].sites) > 0 {
-					for c := 0; c < 2; c++ {
-						confirm[k] = append(confirm[k], runPair(bin, p.a, p.b, p.reps, base))
+				// every site seen must show again in a re-run of the pair: two
+				// re-runs, two more while a site is still missing
+				for c := 0; c < 4 && len(runs[k].sites) > 0; c++ {
+					if c >= 2 && allSeenAgain(runs[k].sites, confirm[k]) {
+						break
 					}
+					confirm[k] = append(confirm[k], runPair(bin, p.a, p.b, p.reps, base))
 				}
 			}
 		}()
@@ -301,6 +361,7 @@ func racePass(chk lockedChk, ss []*streamEntry, bin string, buildS float64, par 
 	pairsRun, repsRun, reportsSeen, pairsRacing := 0, 0, 0, 0
 	var slowest float64
 	fps := map[string]bool{}
+	var unstable []string
 	harnessSeen := 0
 	for k, p := range pairs {
 		r := runs[k]
@@ -337,8 +398,7 @@ func racePass(chk lockedChk, ss []*streamEntry, bin string, buildS float64, par 
 			}
 		}
 		sort.Strings(order)
-		for _, site := range order {
-			s := bySite[site]
+		seenAgain := func(site string) int {
 			again := 0
 			for _, c := range confirm[k] {
 				for _, cs := range c.sites {
@@ -348,8 +408,26 @@ func racePass(chk lockedChk, ss []*streamEntry, bin string, buildS float64, par 
 					}
 				}
 			}
+			return again
+		}
+		confirmedHere := 0
+		for _, site := range order {
+			if seenAgain(site) > 0 {
+				confirmedHere++
+			}
+		}
+		for _, site := range order {
+			s := bySite[site]
+			again := seenAgain(site)
 			fp := report.FPEscape(name + "/data-race/" + site)
 			if again == 0 {
+				if confirmedHere > 0 {
+					// a second face of a race of this pair that is reported (which
+					// accesses collide after an unsynchronised publication depends on
+					// the timing): noted, not a fingerprint of its own
+					unstable = append(unstable, fmt.Sprintf("%s (seen once, in none of %d re-runs; %d other site(s) of the pair confirmed)", fp, len(confirm[k]), confirmedHere))
+					continue
+				}
 				chk.EngineError("race side-pass: %s was seen once but in none of %d re-runs of the pair: not reported as a violation\n%s", fp, len(confirm[k]), tail(s.report, 1500))
 				continue
 			}
@@ -358,10 +436,10 @@ func racePass(chk lockedChk, ss []*streamEntry, bin string, buildS float64, par 
 			if s.kind != "race-report" {
 				what = "the Go runtime aborted the process (" + s.kind + ")"
 			}
-			chk.Report(fp, fmt.Sprintf("%s and %s, each decoding its own VALID input from its own reader in its own goroutine, share unsynchronised mutable state at %s: %s within %d repetitions (two goroutines released together, fresh never-seen inputs each time); seen again in %d of %d re-runs of the pair in a fresh process",
+			chk.Report(fp, fmt.Sprintf("%s and %s, each decoding its own VALID input from its own reader in its own goroutine, share unsynchronised mutable state at %s: %s within %d repetitions (two goroutines released together, fresh never-seen inputs each time, every combination of sub-cases); seen again in %d of %d re-runs of the pair in a fresh process",
 				ss[p.a].entry, ss[p.b].entry, site, what, p.reps, again, len(confirm[k])),
 				map[string]interface{}{"family": "race-side-pass", "entry_points": []string{ss[p.a].entry, ss[p.b].entry}, "site": site, "kind": s.kind, "report": s.report,
-					"replay": fmt.Sprintf("go build -race -o d ./checks/c07 && GORACE=halt_on_error=0 ./d -racepair %d %d %d %d", p.a, p.b, p.reps, raceBase+k*2*reps)})
+					"replay": fmt.Sprintf("go build -race -o d ./checks/c07 && GORACE=halt_on_error=0 ./d -racepair %d %d %d %d", p.a, p.b, p.reps, raceBase+k*stride)})
 		}
 	}
 	var fpl []string
@@ -370,15 +448,18 @@ func racePass(chk lockedChk, ss []*streamEntry, bin string, buildS float64, par 
 	}
 	sort.Strings(fpl)
 	return map[string]interface{}{
-		"entry_points":              len(ss),
-		"pairs":                     len(pairs),
-		"pairs_run":                 pairsRun,
-		"repetitions_per_pair":      reps,
-		"repetitions_run":           repsRun,
-		"calls_run":                 2 * repsRun,
-		"race_reports_seen":         reportsSeen,
-		"pairs_with_a_race":         pairsRacing,
-		"harness_only_reports":      harnessSeen,
+		"entry_points":            len(ss),
+		"pairs":                   len(pairs),
+		"pairs_run":               pairsRun,
+		"repetitions_per_pair":    fmt.Sprintf("max(%d, number of sub-case combinations of the pair), divided by 5 (but not below the number of combinations) for pairs with idl.ParsePackage", reps),
+		"sub_case_combinations":   combos,
+		"releases_per_repetition": 2,
+		"repetitions_run":         repsRun,
+		"calls_run":               4 * repsRun,
+		"race_reports_seen":       reportsSeen,
+		"pairs_with_a_race":       pairsRacing,
+		"harness_only_reports":    harnessSeen,
+		"sites_seen_once_next_to_a_confirmed_site_of_the_same_pair": unstable,
 		"fingerprints":              fpl,
 		"driver_build_s":            buildS,
 		"slowest_pair_s":            slowest,
